@@ -181,11 +181,19 @@ Theorem C15_sampling_time_program :
     exists c, resolve_evidence net ev = Some c /\
       let q := joint_expect net (fun a => ind (ev_holds c a)) in
       (forall n, expect (run p n) (fun s => qnat (s (length net))) = geom (1 - q) n) /\
-      (forall n, (q * geom (1 - q) n = 1 - qpow (1 - q) (S n))%Qc) /\
-      ((0 < q)%Qc -> (q <= 1)%Qc ->
-       is_lim_seq (fun n => Q2R (expect (run p n) (fun s => qnat (s (length net))))) (/ Q2R q)%R).
+      (forall n, (q * geom (1 - q) n = 1 - qpow (1 - q) (S n))%Qc).
 Proof. intros net ev p Hwf. exact (sampling_time_of_wf_network net Hwf ev p). Qed.
 Print Assumptions C15_sampling_time_program.
+
+(* the printed answer should be this limit, 1/P(evidence) (Coquelicot; Reals axioms) *)
+Theorem C15_sampling_time_program_limit :
+  forall net ev p, wf_network net -> codegen net (QSample ev) = Some p ->
+    exists c, resolve_evidence net ev = Some c /\
+      let q := joint_expect net (fun a => ind (ev_holds c a)) in
+      ((0 < q)%Qc -> (q <= 1)%Qc ->
+       is_lim_seq (fun n => Q2R (expect (run p n) (fun s => qnat (s (length net))))) (/ Q2R q)%R).
+Proof. intros net ev p Hwf. exact (sampling_time_limit_of_wf_network net Hwf ev p). Qed.
+Print Assumptions C15_sampling_time_program_limit.
 
 (* ---- the defect of cli.common.transform_to_after_loop, in a model that compares symbols as
    sympy does (name and assumptions): limit_seq with respect to the plain symbol n leaves the
